@@ -257,6 +257,31 @@ def starts(program, view, loop_iters=(0, 1)):
                     tok = e.d["target"][: -len(".service_start_date")]
                     att = [x for x in st.events if x.kind == "call" and x.d["meth"] == "attach_server" and (x.d["args"] + ["?", "?"])[1].strip("()") == tok.strip("()")
                            and x.frame.fid == e.frame.fid]      # same method activation, before or after the date assignment
+                    if not att:
+                        # the dates are written by a newly extracted helper that receives the customer: the attach is in an activation that called it
+                        # (the parameter is already spelled as the caller's name when the walker could alias it ...)
+                        fr = e.frame.parent
+                        while not att and fr is not None:
+                            att = [x for x in st.events if x.kind == "call" and x.d["meth"] == "attach_server" and (x.d["args"] + ["?", "?"])[1].strip("()") == tok.strip("()")
+                                   and x.frame.fid == fr.fid and rules.new_helper_frame(e.frame, fr)]
+                            fr = fr.parent
+                    if not att:
+                        # (... or it still carries the helper's own tag)
+                        fr, name = e.frame, tok.strip("()")
+                        while not att and fr.parent is not None and fr.callsite is not None and fr.tag and name.endswith(fr.tag):
+                            pname = name[: len(name) - len(fr.tag)]
+                            ps = [a.arg for a in fr.func.args.args]
+                            ps = ps[1:] if ps and ps[0] == "self" else ps
+                            if pname not in ps:
+                                break
+                            k = ps.index(pname)
+                            arg = fr.callsite.args[k] if k < len(fr.callsite.args) else next((kw.value for kw in fr.callsite.keywords if kw.arg == pname), None)
+                            if not isinstance(arg, ast.Name):
+                                break
+                            name = arg.id + fr.parent.tag
+                            att = [x for x in st.events if x.kind == "call" and x.d["meth"] == "attach_server" and (x.d["args"] + ["?", "?"])[1].strip("()") == name
+                                   and x.frame.fid == fr.parent.fid]
+                            fr = fr.parent
                     site = Site("start", e, st, i, view)
                     site.cust = tok
                     out.append({"root": root, "params": params, "event": e, "state": st, "idx": i, "token": tok, "attached": bool(att), "site": site})
